@@ -444,7 +444,9 @@ fn nal_strategy(hevc: bool) -> impl Strategy<Value = NalGene> {
     } else {
         prop_oneof![3 => Just(7u8), 3 => Just(8u8), 1 => Just(6u8), 1 => Just(9u8), 2 => Just(5u8), 1 => Just(1u8), 1 => 1u8..32].boxed()
     };
-    (typ, prop_oneof![6 => 0u16..40, 2 => 40u16..400, 1 => 250u16..262, 1 => 400u16..60000], 0u8..4, any::<bool>(), any::<u8>())
+    // fill: the body patterns 0..3 (2 and 3 need emulation prevention), 255 = a byte-identical repetition of the previous unit
+    // of the same type, 254 = 0xFF padding with trailing bits, 192.. = a box type's bytes at the end
+    (typ, prop_oneof![6 => 0u16..40, 2 => 40u16..400, 1 => 250u16..262, 1 => 400u16..60000], prop_oneof![12 => 0u8..4, 2 => Just(255u8), 1 => Just(254u8), 1 => 192u8..240], any::<bool>(), any::<u8>())
         .prop_map(|(typ, len, fill, sc4, aux)| NalGene { typ, len, fill, sc4, aux })
 }
 
